@@ -160,15 +160,10 @@ def encTxKernel (ver : Nat) (m : Mode) (k : TxKernel) : Bytes :=
   encKernelFeatures ver m k.features ++ writeFixed k.excess ++ writeFixed k.excessSig
 
 def decTxKernel (c : Cfg) : Parser TxKernel := fun bs =>
-  match decKernelFeatures c bs with
-  | .error e => .error e
-  | .ok (f, r) =>
-    match decCommit r with
-    | .error e => .error e
-    | .ok (ex, r) =>
-      match decSig r with
-      | .error e => .error e
-      | .ok (sg, r) => .ok ({ features := f, excess := ex, excessSig := sg }, r)
+  andThen (decKernelFeatures c bs) fun f r =>
+  andThen (decCommit r) fun ex r =>
+  andThen (decSig r) fun sg r =>
+  .ok ({ features := f, excess := ex, excessSig := sg }, r)
 
 /-- bytes fed to the `HashWriter` by `TxKernel::hash()` — no version parameter: hash mode is v1 -/
 def TxKernel.hashBytes (k : TxKernel) : Bytes := encTxKernel LOCAL_VERSION .hash k
@@ -200,12 +195,9 @@ deriving DecidableEq, Repr
 def encInput (i : Input) : Bytes := encOutputFeatures i.features ++ writeFixed i.commit
 
 def decInput : Parser Input := fun bs =>
-  match decOutputFeatures bs with
-  | .error e => .error e
-  | .ok (f, r) =>
-    match decCommit r with
-    | .error e => .error e
-    | .ok (cm, r) => .ok ({ features := f, commit := cm }, r)
+  andThen (decOutputFeatures bs) fun f r =>
+  andThen (decCommit r) fun cm r =>
+  .ok ({ features := f, commit := cm }, r)
 
 def Input.hashBytes (i : Input) : Bytes := encInput i
 
@@ -222,12 +214,9 @@ deriving DecidableEq, Repr
 def encOutputId (o : OutputId) : Bytes := encOutputFeatures o.features ++ writeFixed o.commit
 
 def decOutputId : Parser OutputId := fun bs =>
-  match decOutputFeatures bs with
-  | .error e => .error e
-  | .ok (f, r) =>
-    match decCommit r with
-    | .error e => .error e
-    | .ok (cm, r) => .ok ({ features := f, commit := cm }, r)
+  andThen (decOutputFeatures bs) fun f r =>
+  andThen (decCommit r) fun cm r =>
+  .ok ({ features := f, commit := cm }, r)
 
 def OutputId.hashBytes (o : OutputId) : Bytes := encOutputId o
 
@@ -244,13 +233,9 @@ def encRangeProof (p : RangeProof) : Bytes := writeBytes (p.proof.take p.plen)
 /-- `Readable for RangeProof`: reads `min(len, MAX_PROOF_SIZE)` bytes into a zeroed array and sets
 `plen = proof.len()` (= `MAX_PROOF_SIZE`, whatever `len` was). -/
 def decRangeProof : Parser RangeProof := fun bs =>
-  match readU64 bs with
-  | .error e => .error e
-  | .ok (len, r) =>
-    match readFixed (min len MAX_PROOF_SIZE) r with
-    | .error e => .error e
-    | .ok (p, r) =>
-      .ok ({ plen := MAX_PROOF_SIZE, proof := p ++ List.replicate (MAX_PROOF_SIZE - p.length) 0 }, r)
+  andThen (readU64 bs) fun len r =>
+  andThen (readFixed (min len MAX_PROOF_SIZE) r) fun p r =>
+  .ok ({ plen := MAX_PROOF_SIZE, proof := p ++ List.replicate (MAX_PROOF_SIZE - p.length) 0 }, r)
 
 structure Output where
   id : OutputId
@@ -260,12 +245,9 @@ deriving DecidableEq, Repr
 def encOutput (o : Output) : Bytes := encOutputId o.id ++ encRangeProof o.proof
 
 def decOutput : Parser Output := fun bs =>
-  match decOutputId bs with
-  | .error e => .error e
-  | .ok (i, r) =>
-    match decRangeProof r with
-    | .error e => .error e
-    | .ok (p, r) => .ok ({ id := i, proof := p }, r)
+  andThen (decOutputId bs) fun i r =>
+  andThen (decRangeProof r) fun p r =>
+  .ok ({ id := i, proof := p }, r)
 
 /-- `Output` orders / compares / is identified by its identifier -/
 def Output.hashBytes (o : Output) : Bytes := o.id.hashBytes
@@ -341,34 +323,20 @@ def TxBody.verifySorted (key : Bytes → Nat) (b : TxBody) : Except SerErr Unit 
     | .error e => .error e
     | .ok _ => verifySortedUnique (b.kernels.map fun k => key k.hashBytes)
 
+/-- the version-specific inputs read of `TransactionBody::read` -/
+def decInputs (ver : Nat) (ni : Nat) : Parser Inputs := fun bs =>
+  if ver ≤ 2 then andThen (readMulti decInput ni bs) fun l r => .ok (Inputs.featuresAndCommit l, r)
+  else andThen (readMulti decCommitWrapper ni bs) fun l r => .ok (Inputs.commitOnly l, r)
+
 /-- `Readable for TransactionBody` -/
 def decTxBody (c : Cfg) : Parser TxBody := fun bs =>
-  match readU64 bs with
-  | .error e => .error e
-  | .ok (ni, r) =>
-  match readU64 r with
-  | .error e => .error e
-  | .ok (no, r) =>
-  match readU64 r with
-  | .error e => .error e
-  | .ok (nk, r) =>
+  andThen (readU64 bs) fun ni r =>
+  andThen (readU64 r) fun no r =>
+  andThen (readU64 r) fun nk r =>
   if weightByIok ni no nk > c.maxWeight then .error .tooLarge else
-  match (if c.ver ≤ 2 then
-           (match readMulti decInput ni r with
-            | .error e => .error e
-            | .ok (l, r) => .ok (Inputs.featuresAndCommit l, r))
-         else
-           (match readMulti decCommitWrapper ni r with
-            | .error e => .error e
-            | .ok (l, r) => .ok (Inputs.commitOnly l, r)) : Except SerErr (Inputs × Bytes)) with
-  | .error e => .error e
-  | .ok (ins, r) =>
-  match readMulti decOutput no r with
-  | .error e => .error e
-  | .ok (outs, r) =>
-  match readMulti (decTxKernel c) nk r with
-  | .error e => .error e
-  | .ok (kers, r) =>
+  andThen (decInputs c.ver ni r) fun ins r =>
+  andThen (readMulti decOutput no r) fun outs r =>
+  andThen (readMulti (decTxKernel c) nk r) fun kers r =>
     let body : TxBody := { inputs := ins, outputs := outs, kernels := kers }
     -- `TransactionBody::init(.., verify_sorted = true).map_err(|_| CorruptedData)`
     match body.verifySorted c.key with
@@ -419,16 +387,12 @@ def TxBody.verifyFeatures (b : TxBody) : Bool :=
 
 /-- `Readable for Transaction` -/
 def decTransaction (c : Cfg) : Parser Transaction := fun bs =>
-  match decBlind bs with
-  | .error e => .error e
-  | .ok (off, r) =>
-    match decTxBody c r with
-    | .error e => .error e
-    | .ok (body, r) =>
-      -- `tx.validate_read().map_err(|_| CorruptedData)`
-      if body.validateRead c (maxTxWeight c.maxWeight) && body.verifyFeatures then
-        .ok ({ offset := off, body := body }, r)
-      else .error .corrupted
+  andThen (decBlind bs) fun off r =>
+  andThen (decTxBody c r) fun body r =>
+    -- `tx.validate_read().map_err(|_| CorruptedData)`
+    if body.validateRead c (maxTxWeight c.maxWeight) && body.verifyFeatures then
+      .ok ({ offset := off, body := body }, r)
+    else .error .corrupted
 
 /-- hash-mode bytes of a body: all inputs as they are, kernels v1 (`None` never happens in hash mode
 except through `Inputs`, which does not fail in hash mode) -/
